@@ -109,9 +109,9 @@ class C07(InputProp):
         self.parse, self.advtree, self.treecleaner = uparser.parse_string, advtree, treecleaner
         self.db = LangDB("en", {})
         if tier == "quick":
-            fams = [DomainSpace(G.DocSpace(2, variants=["plain", "html"]), "g2"), DomainSpace(G.DocSpace(3, names=CORE, variants=["plain"]), "g3core")]
+            fams = [DomainSpace(G.DocSpace(2, variants=["plain", "html", "tight"]), "g2"), DomainSpace(G.DocSpace(3, names=CORE, variants=["plain"]), "g3core")]
         else:
-            fams = [DomainSpace(G.DocSpace(2), "g2"), DomainSpace(G.DocSpace(3, variants=["plain", "compact"]), "g3")]
+            fams = [DomainSpace(G.DocSpace(2), "g2"), DomainSpace(G.DocSpace(3, variants=["plain", "tight"]), "g3")]
         self.space = Concat(*fams)
 
     def describe(self, case):
